@@ -56,7 +56,7 @@ pub const SCHEMA_IDS: [&str; 3] = ["NcYxiDXkpYi6ov5FcYDi1e:2:gvt:1.0", "did:web:
 pub const CD_IDS: [&str; 4] = ["NcYxiDXkpYi6ov5FcYDi1e:3:CL:1:tag", "did:web:issuer1.example/cd/1", "NcYxiDXkpYi6ov5FcYDi1e:3:CL:2:emp", "did:web:issuer2.example/cd/3"];
 pub const REG_ID: &str = "did:web:issuer1.example/reg/1";
 
-fn issue(w_cds: &[CredDefSetup], cd: usize, ls: &LinkSecret, values: &[(&str, &str)], rev: Option<(&RegSetup, &RevocationStatusList, u32)>) -> Credential {
+pub fn issue(w_cds: &[CredDefSetup], cd: usize, ls: &LinkSecret, values: &[(&str, &str)], rev: Option<(&RegSetup, &RevocationStatusList, u32)>) -> Credential {
     let c = &w_cds[cd];
     let offer = issuer::create_credential_offer(c.schema_id.as_str().try_into().unwrap(), c.cred_def_id.as_str().try_into().unwrap(), &c.kcp).unwrap();
     let (req, meta) = prover::create_credential_request(Some("entropy"), None, &c.cred_def, ls, "ls", &offer).unwrap();
@@ -103,6 +103,7 @@ impl World {
             (1, 1, bob.to_vec(), Some(2)),
             (3, 0, alex.to_vec(), None),
             (0, 0, vec![("name", "Alexa"), ("age", "31"), ("sex", "female"), ("height", "168")], None),
+            (0, 0, vec![("name", "Zoë ✓"), ("age", "-5"), ("sex", ""), ("height", "-2147483648")], None),
         ];
         let creds: Vec<Held> = plan
             .iter()
